@@ -157,6 +157,8 @@ def expr_xml(e):
     if k == 'diff2':
         return ('<apply><diff/><bvar>%s<degree><cn cellml:units="dimensionless">2</cn></degree></bvar>%s</apply>'
                 % (expr_xml(e[2]), expr_xml(e[1])))
+    if k in ('piecewise', 'piece', 'otherwise'):
+        return '<%s>%s</%s>' % (k, ''.join(expr_xml(a) for a in e[1:]), k)
     return '<apply><%s/>%s</apply>' % (k, ''.join(expr_xml(a) for a in e[1:]))
 
 
@@ -165,6 +167,7 @@ def eq_xml(q):
 
 
 FN_ID = {'exp': 0, 'floor': 3, 'ceiling': 4, 'rem': 42}
+REL_ID = {'lt': 2, 'leq': 3, 'gt': 4, 'geq': 5}
 
 
 def expr_sexp(e, intern):
@@ -191,6 +194,18 @@ def expr_sexp(e, intern):
         return [8, expr_sexp(e[1], intern), expr_sexp(e[2], intern), 1]
     if k == 'diff2':
         return [8, expr_sexp(e[1], intern), expr_sexp(e[2], intern), 2]
+    if k == 'piecewise':
+        out = [13]
+        for pc in e[1:]:
+            if pc[0] == 'piece':
+                out.append([expr_sexp(pc[1], intern), expr_sexp(pc[2], intern)])
+            else:
+                out.append([expr_sexp(pc[1], intern), [11]])
+        return out
+    if k in REL_ID:
+        return [9, REL_ID[k], expr_sexp(e[1], intern), expr_sexp(e[2], intern)]
+    if k in ('and', 'or'):
+        return [10, 0 if k == 'and' else 1] + [expr_sexp(a, intern) for a in e[1:]]
     raise ValueError('expr_sexp: %r' % (e,))
 
 
@@ -238,8 +253,14 @@ def units_xml(d, indent='  '):
 
 def comp_xml(c):
     out = '  <component name="%s">\n' % c['name']
-    if c.get('units_inside'):
-        out += units_xml(_def('inner_u', [_child('second', prefix='micro')]), '    ')
+    ui = c.get('units_inside')
+    if ui:
+        # derived unit (with <unit> children) or a new base unit (no children); own name or shadowing a model-level unit
+        name = 'mV' if 'shadow' in str(ui) else 'inner_u'
+        if 'base' in str(ui):
+            out += units_xml(_def(name, base='yes'), '    ')
+        else:
+            out += units_xml(_def(name, [_child('second', prefix='micro')]), '    ')
     for v in c['vars']:
         a = ' name="%s" units="%s"' % (v['name'], v['units'])
         if v.get('init') is not None:
@@ -416,6 +437,10 @@ def decode_model(out, it, doc):
         elif x[0] in (6, 9):
             for y in x[(2 if x[0] == 9 else 1):]:
                 refs(y, acc, ders)
+        elif x[0] == 13:
+            for pc in x[1:]:
+                for y in pc:
+                    refs(y, acc, ders)
         return acc, ders
     for q in eqs:
         if q[0] == 0:
@@ -766,6 +791,50 @@ class Gen(object):
             return ci(vs[0]['name'])
         return None
 
+    def condition(self, avail):
+        """variable <rel> literal-or-variable of the same dimension; prefers a variable received through a connection
+        that changes the unit; the literal spans seven decades so that both outcomes and both unit readings occur"""
+        r = self.rng
+        recv = [v for v in avail if v.get('owner')]
+        changed = []
+        for v in recv:
+            src = [x for x in self.vars[v['owner'][0]] if x['name'] == v['owner'][1]]
+            if src and src[0]['units'] != v['units']:
+                changed.append(v)
+        cands = changed or recv or [v for v in avail]
+        if not cands:
+            return None
+        w = r.choice(cands)
+        same = [v for v in avail if v['dim'] == w['dim'] and v is not w]
+        if same and r.random() < 0.25:
+            rhs = ci(r.choice(same)['name'])
+        else:
+            val = Decimal(r.choice(NUMS)).scaleb(r.randint(-3, 3))
+            rhs = cn(format(val, 'f'), r.choice([w['units'], w['units'], r.choice(self.pool[w['dim']])]))
+        return [r.choice(['lt', 'gt', 'leq', 'geq']), ci(w['name']), rhs]
+
+    def piecewise(self, units, avail):
+        """pieces that need no conversion (numbers in the unit of the left-hand side, local variables declared in that
+        unit), conditions on received variables, sometimes joined with and / or"""
+        r = self.rng
+
+        def piece_value():
+            same = [v for v in avail if v['units'] == units]
+            if same and r.random() < 0.4:
+                return ci(r.choice(same)['name'])
+            return cn(r.choice(NUMS), units)
+        out = ['piecewise']
+        for _ in range(r.randint(1, 2)):
+            c1 = self.condition(avail)
+            if c1 is None:
+                return None
+            if r.random() < 0.3:
+                c2 = self.condition(avail)
+                c1 = [r.choice(['and', 'or']), c1, c2]
+            out.append(['piece', piece_value(), c1])
+        out.append(['otherwise', piece_value()])
+        return out
+
     def pos(self, c, dim, avail):
         """a denominator that cannot vanish: a positive number"""
         return cn(self.rng.choice(NUMS), self.rng.choice(self.pool[dim]))
@@ -797,6 +866,8 @@ class Gen(object):
                     v = self.new_var(c, base, units, 'comp')
                     v['defined'] = False
                     rhs = self.numfree(dim, avail) if r.random() < 0.3 else None
+                    if rhs is None and r.random() < 0.25:
+                        rhs = self.piecewise(units, avail)
                     if rhs is None:
                         rhs = self.expr(c, dim, avail, r.randint(1, 3))
                     # sometimes: a derivative on the right-hand side
@@ -1032,6 +1103,10 @@ class NoValue(Exception):
     pass
 
 
+class Tie(Exception):
+    """a condition compares two equal quantities (a variable with a copy of itself): rounding decides, no verdict"""
+
+
 def eval_expr(e, env, denv):
     k = e[0]
     if k == 'ci':
@@ -1045,6 +1120,19 @@ def eval_expr(e, env, denv):
         if key not in denv:
             raise NoValue(key)
         return denv[key]
+    if k == 'piecewise':
+        for pc in e[1:]:
+            if pc[0] == 'otherwise' or eval_expr(pc[2], env, denv):
+                return eval_expr(pc[1], env, denv)
+        raise NoValue('no piece applies')
+    if k in ('lt', 'leq', 'gt', 'geq'):
+        x, y = eval_expr(e[1], env, denv), eval_expr(e[2], env, denv)
+        if close(x, y, 1e-9):
+            raise Tie()
+        return {'lt': x < y, 'leq': x <= y, 'gt': x > y, 'geq': x >= y}[k]
+    if k in ('and', 'or'):
+        vals = [eval_expr(a, env, denv) for a in e[1:]]
+        return all(vals) if k == 'and' else any(vals)
     a = [eval_expr(x, env, denv) for x in e[1:]]
     if k == 'plus':
         return sum(a)
@@ -1158,7 +1246,7 @@ def expr_magnitude(e, env, denv, emag):
     rounding noise a cancellation can leave"""
     try:
         v = abs(eval_expr(e, env, denv))
-    except (NoValue, OverflowError, ZeroDivisionError, ValueError):
+    except (NoValue, Tie, OverflowError, ZeroDivisionError, ValueError, TypeError):
         v = 0.0
     if e[0] == 'ci':
         return max(v, emag.get(e[1], 0.0))
@@ -1504,7 +1592,8 @@ def fault_sites(doc):
     """every (class, site) applicable to this valid document"""
     out = []
     for i, c in enumerate(doc['comps']):
-        out.append(['units_in_component', i])
+        for form in ('derived', 'base', 'shadow_base', 'shadow_derived'):
+            out.append(['units_in_component', i, form])
         if c['vars']:
             out.append(['reaction', i])
         out.append(['duplicate_component', i])
@@ -1600,7 +1689,7 @@ def apply_fault(doc, f):
     d = copy.deepcopy(doc)
     k = f[0]
     if k == 'units_in_component':
-        d['comps'][f[1]]['units_inside'] = True
+        d['comps'][f[1]]['units_inside'] = f[2] if len(f) > 2 else True
     elif k == 'reaction':
         d['comps'][f[1]]['reaction'] = True
     elif k == 'duplicate_component':
